@@ -93,7 +93,7 @@ def run(ck):
         ct = smap.get("t%d" % i)
         if ct and len(ct) == 32:
             cases.append(Case("aes d %s %s" % (c.line.split()[2], ct), "aes", c.cls.replace("enc/", "dec/")))
-    impl, model, spec = differential(ck, exe, cases, oracle)
+    impl, model, spec = differential(ck, exe, cases, oracle, src=True)
     # inverse property on the implementation itself: dec(enc(b)) == b and enc(dec(b)) == b
     r = ck.rng
     lines, meta = [], {}
